@@ -339,7 +339,7 @@ class Run(Oracles):
                 kw["kwargs"] = rm.kwargs
             return pool.apply(func, **kw)
         it = w.make_iter(rm, {"n": spec.get("n", 0), "pull_ops": spec.get("pull_ops"), "as_list": spec.get("as_list"),
-                              "raise_at": spec.get("iter_raise_at", -1), "fault_kind": spec.get("fault_kind", 0)})
+                              "raise_at": spec.get("iter_raise_at", -1), "fault_kind": spec.get("fault_kind", 0), "shapes": spec.get("shapes")})
         if "nc" in spec:
             kw["num_concurrent"] = spec["nc"]
         return getattr(pool, kind)(func, it, **kw)
